@@ -117,6 +117,12 @@ def gen_flex_ops(t, rng, n_ops):
         elif r < 0.68:
             ops.append('(clear)')
             length = 0
+        elif r < 0.90 and et[0] == 'flex':
+            # an item that is itself a FlexVec grows and shrinks in place (its extent changes under the outer vector)
+            i = rng.randrange(max(length, 1))
+            inner = rng.choice(['(push %s)' % gen_init(et[1], rng, 1), '(push %s)' % gen_init(et[1], rng, 1), '(pop)',
+                                '(pop)', '(truncate %d)' % rng.choice([0, 1, 2]), '(clear)'])
+            ops.append('(editflex %d %s)' % (i, inner))
         elif r < 0.86 and et[0] in ('vec', 'str'):
             i = rng.randrange(max(length, 1))
             inner = gen_vec_ops(et, rng, 1, 3, 1)[0] if et[0] == 'vec' else gen_str_ops(rng, 1)[0]
@@ -212,6 +218,40 @@ def generate(shapes, seed, tier='quick'):
             off = 0
             lines.append('H %s %s %d %s | %s | %s' % (cid, sid, off, hexs(garbage(rng, n)), ini, ' | '.join(ops)))
             meta[cid] = {'op': 'H', 'shape': sid, 'off': off, 'len': n, 'init': ini, 'ops': ops}
+        # ---- an item shrinks in place and leaves slack in front of the next slot (the next item stays where it is)
+        if t[0] == 'flex' and t[1][0] in ('vec', 'str'):
+            et = t[1]
+            def big():
+                if et[0] == 'vec':
+                    return '(viter%s)' % ''.join(' ' + gen_init(et[1], rng, 1, allow_default=False) for _ in range(rng.choice([2, 3, 5])))
+                return '(str %s)' % hexs(b'abcdef'[:rng.choice([2, 3, 6])])
+            shrink = (lambda: rng.choice(['(pop)', '(truncate 1)', '(clear)', '(truncate 0)'])) if et[0] == 'vec' else (lambda: '(clear)')
+            for j in range(2 if tier == 'quick' else 6):
+                ini = '(flex %s %s %s)' % (big(), big(), gen_init(et, rng, 1))
+                ops = ['(editvec 0 %s)' % shrink(), '(editvec 1 %s)' % shrink(), '(push %s)' % gen_init(et, rng, 1),
+                       '(editassign 0 %s)' % gen_init(et, rng, 1), '(editvec 1 %s)' % shrink()]
+                rng.shuffle(ops)
+                cid = '%s.HS%d' % (sid, j)
+                n = 8 * ms + 16 * a + 64
+                lines.append('H %s %s 0 %s | %s | %s' % (cid, sid, hexs(garbage(rng, n)), ini, ' | '.join(ops)))
+                meta[cid] = {'op': 'H', 'shape': sid, 'off': 0, 'len': n, 'init': ini, 'ops': ops}
+        # ---- an item that is a FlexVec shrinks in place (pop / truncate leave a zero terminator behind its items),
+        #      then the outer vector grows: the new outer slot goes behind the item's terminator
+        if t[0] == 'flex' and t[1][0] == 'flex':
+            it = t[1][1]
+            x = lambda: gen_init(it, rng, 1)
+            for j, (ini, ops) in enumerate([
+                    ('empty', ['(push empty)', '(editflex 0 (push %s))' % x(), '(editflex 0 (push %s))' % x(), '(editflex 0 (pop))',
+                               '(push empty)', '(editflex 1 (push %s))' % x(), '(pop)', '(editflex 0 (push %s))' % x()]),
+                    ('empty', ['(push empty)', '(editflex 0 (push %s))' % x(), '(editflex 0 (push %s))' % x(),
+                               '(editflex 0 (push %s))' % x(), '(editflex 0 (truncate 2))', '(push (flex %s))' % x(),
+                               '(editflex 0 (truncate 1))', '(editflex 1 (pop))', '(push empty)', '(truncate 1)', '(push empty)']),
+                    ('(flex (flex %s %s))' % (x(), x()), ['(editflex 0 (pop))', '(push (flex %s))' % x(), '(editflex 0 (clear))',
+                                                            '(editflex 1 (push %s))' % x(), '(editflex 2 (pop))'])]):
+                for n in (ms + 6 * a, 64, 8 * ms + 16 * a + 3):
+                    cid = '%s.HF%d_%d' % (sid, j, n)
+                    lines.append('H %s %s 0 %s | %s | %s' % (cid, sid, hexs(garbage(rng, n)), ini, ' | '.join(ops)))
+                    meta[cid] = {'op': 'H', 'shape': sid, 'off': 0, 'len': n, 'init': ini, 'ops': ops}
         # ---- the offset of a sealed item must stay below L::MAX: items whose span is just below / at / above it
         # (one-byte offset types: 255; two-byte ones, native and portable: 65535 — the latter only with string items,
         # whose emplacer expression stays compact)
